@@ -387,6 +387,7 @@ class BuildObserver:
         for s, so in zip(sc["tasks"], solos):
             self.targets[s["name"]] = set(so["files"]) | set(so["dirs"])
         self.inputs = set(sc["inputs"])
+        self.preexisting = set()        # filled by run_build with everything on the file system at start
         self.completed = {}
         self.state_fps = set()
         self.pyprefixes = tuple({sys.prefix, sys.base_prefix, "/usr/lib/python3", "/usr/lib/python"})
@@ -395,10 +396,19 @@ class BuildObserver:
         if len(self.viol) < 20:
             self.viol.append({"inv": inv, "sig": sig, "detail": detail})
 
-    def allowed_write(self, spec, path):
+    def allowed_write(self, spec, path, w=None):
         if spec["kind"] == "ml":
             return _under(path, spec["outdir"])
-        return path in spec["targets"]
+        if path in spec["targets"]:
+            return True
+        # a NEW file next to a target (e.g. a temporary that is renamed over the target) is not judged
+        # at the moment it is written: whatever is left behind is judged at the end (I4: no extra file).
+        # Touching a file that already existed and is not a target is a violation at once.
+        if w is not None and os.path.dirname(path) in {os.path.dirname(t) for t in spec["targets"]} and \
+                path not in self.preexisting and not any(path in tg for n, tg in self.targets.items()
+                                                         if n != spec["name"]):
+            return True
+        return False
 
     def allowed_read(self, spec, path):
         if path in spec["srcs"] or path == spec["tpl"]:
@@ -419,7 +429,7 @@ class BuildObserver:
             return
         kind = spec["kind"]
         if op in ("open-w", "open-a", "mkdir", "unlink", "rmdir", "rename", "write"):
-            ok = self.allowed_write(spec, path)
+            ok = self.allowed_write(spec, path, w)
             if op == "mkdir" and not ok:
                 # creating a missing ancestor directory of an asked-for target is not an extra output
                 ok = _is_ancestor(path, spec.get("targets", []) + ([spec["outdir"]] if kind == "ml" else []))
@@ -520,6 +530,7 @@ def run_build(tape, ctx):
     w.put(unrelated, b"keep")
     before_f, before_d = w.snapshot()
     obs = BuildObserver(sc, solos)
+    obs.preexisting = set(before_f) | set(before_d)
     w.observers.append(obs)
     w.mutation_hook = mutation_hook_factory(obs)
     tasks = [w.add_task(_mk_task(s)) for s in sc["tasks"]]
